@@ -19,6 +19,7 @@ class Builder:
         self.interp = interp
         self.ctx = interp.ctx
         self.leaves = {}      # leaf name -> (z3 const, spec)
+        self.seq_leaves = {}  # name -> (n const, {key: (idx, elem const)}, spec)
 
     def leaf(self, name, sort, spec):
         if sort == 'real':
@@ -177,6 +178,57 @@ class RealList(RealVec):
     def desc(self, name, asg):
         return {'k': 'list', 'v': [{'k': 'real', 'v': asg[nm]}
                                    for nm in self._names(name)]}
+
+
+class RealSeq(Spec):
+    """numpy array of *symbolic length* n >= min_len whose elements are reals
+    (all indices share the element facts given by `elem_pos`).  Natively a
+    random length in [min_len, max_len] is sampled."""
+
+    def __init__(self, lo=-100., hi=100., min_len=1, max_len=5, positive=False,
+                 log=False, as_list=False):
+        self.el = Real(lo, hi, log)
+        self.min_len, self.max_len = min_len, max_len
+        self.positive = positive
+        self.as_list = as_list
+
+    def sym(self, B, name):
+        from .values import GenArr
+        n = z3.Int(name + '.len')
+        B.ctx.assume(n >= self.min_len)
+        consts = {}
+
+        def elem(i, name=name, consts=consts):
+            if isinstance(i, int):
+                i = z3.IntVal(i)
+            key = z3.simplify(i).sexpr()
+            if key not in consts:
+                c = z3.Real('%s[%s]' % (name, key))
+                consts[key] = (i, c)
+                if self.positive:
+                    # persistent fact (must survive temporary assumptions)
+                    B.ctx.atoms.facts.append(c > 0)
+            return Sym(consts[key][1])
+        B.seq_leaves[name] = (n, consts, self)
+        return GenArr(n, elem, tag=name)
+
+    def sample(self, rng, name, asg):
+        L = rng.randint(self.min_len, self.max_len)
+        vals = []
+        for k in range(L):
+            tmp = {}
+            self.el.sample(rng, 'x', tmp)
+            vals.append(tmp['x'])
+        asg[name] = vals
+
+    def desc(self, name, asg):
+        if self.as_list:
+            return {'k': 'list', 'v': [{'k': 'real', 'v': v}
+                                       for v in asg[name]]}
+        return {'k': 'ndarray', 'v': list(asg[name])}
+
+    def leaf_names(self, name):
+        return [name]
 
 
 class RealMat(Spec):
